@@ -35,7 +35,7 @@ func (s *Server) Rename(ctx context.Context, params *protocol.RenameParams) (*pr
 		return nil, nil
 	}
 
-	resolved := s.getWorkspaceResolved(params.TextDocument.URI)
+	resolved := s.withOpenDocuments(s.getWorkspaceResolved(params.TextDocument.URI))
 	currentPath := s.resolvedPrimaryPath(params.TextDocument.URI)
 
 	locations := findReferences(target, resolved, currentPath, journal, true)
